@@ -660,6 +660,27 @@ func runTok(sw *shardWriter, j *jb, data []byte, st *genStats) {
 	ex(4, func() error { _, _, err := rjson.ReadBool(data); return err })
 	ex(6, func() error { _, _, err := rjson.ReadObject(data); return err })
 	ex(8, func() error { _, _, err := rjson.ReadArray(data); return err })
+	// the typed methods of a ValueReader, new and with a history (the history is part of the observer, so a
+	// replay recreates it): after a successful read, after failed reads of each kind, after type mismatches
+	for _, h := range tokReaderHistories {
+		h := h
+		ex(6, func() error { r := &rjson.ValueReader{}; h(r); _, _, err := r.ReadObject(data); return err })
+		ex(8, func() error { r := &rjson.ValueReader{}; h(r); _, _, err := r.ReadArray(data); return err })
+		ex(6, func() error {
+			r := &rjson.ValueReader{}
+			h(r)
+			r.ReadArray(data)
+			_, _, err := r.ReadObject(data)
+			return err
+		})
+		ex(8, func() error {
+			r := &rjson.ValueReader{}
+			h(r)
+			r.ReadObject(data)
+			_, _, err := r.ReadArray(data)
+			return err
+		})
+	}
 	j.raw(`],"panics":`)
 	j.int(panics)
 	j.raw(`,"unch":`)
@@ -672,6 +693,20 @@ func runTok(sw *shardWriter, j *jb, data []byte, st *genStats) {
 		sw.write(j.b)
 	}
 	st.note(data, panics > 0)
+}
+
+var tokReaderHistories = []func(r *rjson.ValueReader){
+	func(r *rjson.ValueReader) {},
+	func(r *rjson.ValueReader) { r.ReadValue([]byte(`{"a":[1,{"b":2}],"c":{}}`)) },
+	func(r *rjson.ValueReader) { r.ReadArray([]byte(`[1,[2,`)) },
+	func(r *rjson.ValueReader) { r.ReadObject([]byte(`{"a":{"b":`)) },
+	func(r *rjson.ValueReader) { r.ReadValue([]byte(`[[[[1,]]]]`)) },
+	func(r *rjson.ValueReader) { r.ReadArray([]byte(`1`)); r.ReadObject([]byte(`"x"`)) },
+	func(r *rjson.ValueReader) {
+		r.ReadArray([]byte(`[`))
+		r.ReadArray([]byte(`[{"a":`))
+		r.ReadObject([]byte(`{"a"`))
+	},
 }
 
 func wsPrefixes(maxLen int) [][]byte {
@@ -1131,6 +1166,8 @@ func runSan(sw *shardWriter, j *jb, data []byte, pre []byte, slack int, st *genS
 	j.bytes([]byte(s))
 	j.raw(`,"pre":`)
 	j.bytes(pre)
+	j.raw(`,"slack":`)
+	j.int(slack)
 	j.raw(`,"sb":`)
 	j.bytes(sb)
 	j.raw(`,"panics":`)
@@ -1149,9 +1186,27 @@ var utf8Boundary = []byte{0x00, 0x7f, 0x80, 0x8f, 0x90, 0x9f, 0xa0, 0xbf, 0xc0, 
 	0xf0, 0xf1, 0xf3, 0xf4, 0xf5, 0xf7, 0xf8, 0xfb, 0xfc, 0xff}
 
 func genSan(c *genCtx, sw *shardWriter, j *jb) {
-	pres := [][]byte{{}, []byte("ab"), {0xff}}
+	pres := [][]byte{{}, []byte("ab"), {0xff}, bytes.Repeat([]byte("p"), 64), bytes.Repeat([]byte("q"), 250)}
+	slacks := []int{0, 1, 2, 3, 4, 5, 6, 8, 16}
+	nEmit := 0
 	emit := func(b []byte) {
-		runSan(sw, j, b, pres[c.rng.Intn(len(pres))], []int{0, 1, 3, 4, 16}[c.rng.Intn(5)], c.st)
+		nEmit++
+		if len(b) <= 2 && len(b) > 0 && (b[0] >= 0x7e || b[0] == 'a') || nEmit%16 == 0 {
+			// every destination shape (contents short and long, free room 0..8 and ample, and room for exactly
+			// the result minus 0..3): in-place writers are wrong only for particular amounts of free room
+			for _, pre := range pres {
+				for _, sl := range slacks {
+					runSan(sw, j, b, pre, sl, c.st)
+				}
+				for d := 0; d <= 3; d++ {
+					if k := 3*len(b) - d; k > 16 {
+						runSan(sw, j, b, pre, k, c.st)
+					}
+				}
+			}
+			return
+		}
+		runSan(sw, j, b, pres[c.rng.Intn(len(pres))], slacks[c.rng.Intn(len(slacks))], c.st)
 	}
 	// long inputs: a valid multi-byte rune (or a truncated one) straddling every offset around the powers of two, with an
 	// invalid byte nowhere / at the start / at the end / right before the rune (converters working in blocks or windows)
@@ -1294,7 +1349,11 @@ func init() {
 	replayers["san"] = func(ev map[string]interface{}) ([]byte, error) {
 		var j jb
 		pre := anyBytes(ev["pre"])
-		runSan(nil, &j, anyBytes(ev["in"]), pre, 2, newStats())
+		slack := 2
+		if f, ok := ev["slack"].(float64); ok {
+			slack = int(f)
+		}
+		runSan(nil, &j, anyBytes(ev["in"]), pre, slack, newStats())
 		return append([]byte{}, j.b...), nil
 	}
 }
